@@ -491,6 +491,10 @@ def install_writer_externals(interp):
                     stream.attrs["content"] = MultiRowText(content.rows + [formatted])
                 else:
                     stream.attrs["content"] = formatted
+            elif isinstance(stream, Obj) and not isinstance(stream.cls, str):
+                # a sink object of the repository's own (any class with a write method): csv.writer hands it the formatted
+                # row in one write() call
+                interp2.call(interp2.getattr(stream, "write"), [RowText(args2[0], terminator)], {})
             else:
                 interp2.event("emit", args2[0], terminator)
 
@@ -501,6 +505,7 @@ def install_writer_externals(interp):
         buffer.attrs["seek"] = stub(lambda i, a, k: 0)
         buffer.attrs["truncate"] = stub(lambda i, a, k: buffer.attrs.__setitem__("content", ""))
         buffer.attrs["getvalue"] = stub(lambda i, a, k: buffer.attrs["content"])
+        buffer.attrs["close"] = stub(lambda i, a, k: None)
         return buffer
 
     interp.externals["csv.writer"] = csv_writer
@@ -1301,3 +1306,50 @@ def writer_refusal_after_checks_table(ctx, rule):
 
     ctx.res.minimum(rule, 1)
     return decide_kinds(ctx, rule, "Writer: a row refused by the row writer", WRITER + ".write_row", cell, min_cells=2)
+
+
+# =============================================================================== a writer given a path closes its file
+def row_writer_close_table(ctx, rule):
+    """
+    "Writing the table and reading the result back": a row writer that was given a PATH opened the file itself, so its
+    close() (and with it leaving the ``with`` block, and validio.Writer.close()) has to close that file - otherwise the rows
+    stay in the buffer of the text layer and reading the path back yields an empty table.  A stream handed over by the
+    caller stays open.  Every subclass of AbstractRowWriter that overrides close() is covered by interpreting its close().
+    """
+    model = ctx.model
+    writer_classes = [cls for cls in model.subclasses(model.cls("cutplace.rowio.AbstractRowWriter")) if cls.name in ("DelimitedRowWriter", "FixedRowWriter")]
+
+    def cell(ch):
+        class_qualname = ch.choose("writer", [cls.qualname for cls in writer_classes])
+        target_kind = ch.choose("target", ["path", "stream of the caller"])
+        rows = ch.choose("rows written", [0, 1])
+        interp = Interp(model, ch)
+        world = World(model, interp, ch)
+        install_writer_externals(interp)
+        closes = []
+        opened = Obj("io.TextIOWrapper", {"name": "data.csv", "write": stub(lambda i, a, k: None),
+                                          "close": stub(lambda i, a, k: closes.append("file opened by the writer"))}, label="opened file")
+        given = Obj("io.StringIO", {"name": "<stream>", "write": stub(lambda i, a, k: None),
+                                    "close": stub(lambda i, a, k: closes.append("stream of the caller"))}, label="stream")
+        interp.externals["io.open"] = lambda i, a, k: opened
+        interp.externals["builtins.open"] = lambda i, a, k: opened
+        interp.externals["len"] = lambda interp_, args, kwargs: 2
+        fixed = class_qualname.endswith("FixedRowWriter")
+        data_format = world.data_format("fixed" if fixed else "delimited", header=0)
+        arguments = ["data.csv" if target_kind == "path" else given, data_format]
+        if fixed:
+            arguments.append([("f0", 2), ("f1", 2)])
+        key = "%s(%s), %d row(s), close()" % (class_qualname.rsplit(".", 1)[-1], target_kind, rows)
+        try:
+            writer = _construct(interp, class_qualname, arguments)
+            for index in range(rows):
+                interp.call(interp.getattr(writer, "write_row"), [world.row(index, 2)], {})
+            interp.call(interp.getattr(writer, "close"), [], {})
+        except AbsRaise as raised:
+            return (key, "raise " + exc_name(raised.value), "closed: " + ("the file it opened" if target_kind == "path" else "nothing"))
+        expected = ["file opened by the writer"] if target_kind == "path" else []
+        show = lambda items: "closed: " + (", ".join(items) if items else "nothing")  # noqa: E731
+        return (key, show(closes), show(expected))
+
+    ctx.res.minimum(rule, 1)
+    return decide(ctx, rule, "row writers: close() closes the file the writer opened", "cutplace.rowio.AbstractRowWriter.close", cell, min_cells=8)
